@@ -553,6 +553,145 @@ def dup_args():
     save("dup_args", ["C06", "C04", "C09"], steps)
 
 
+def identity_same():
+    """the same value in both scopes first, a different one later; a global write from a repository that names its user itself"""
+    steps = [{"ev": "init"}]
+    steps.append({"ev": "config", "global": True, "key": "user.name", "value": esc("Grace Hopper")})
+    steps.append({"ev": "config", "global": True, "key": "user.email", "value": "grace@example.com"})
+    steps.append({"ev": "config", "key": "user.name", "value": esc("Grace Hopper")})       # pinned locally with the value in effect
+    steps.append({"ev": "config", "key": "user.email", "value": "grace@example.com"})
+    steps.append({"ev": "config", "global": True, "key": "user.name", "value": esc("Build Robot")})
+    steps.append({"ev": "config", "global": True, "key": "user.email", "value": "robot@ci.example.org"})
+    steps.append(w("a", "1"))
+    steps.append({"ev": "add", "paths": ["a"]})
+    steps.append({"ev": "commit", "msg": "one"})
+    steps.append({"ev": "log", "n": 1})
+    steps.append({"ev": "config", "global": True, "key": "core.editor", "value": "vi"})      # from a repository with a local identity
+    steps.append({"ev": "config", "key": "user.name", "value": esc("Grace Hopper")})         # already set to this value
+    steps.append({"ev": "config", "global": True, "key": "core.editor", "value": "vi"})
+    steps.append(w("a", "2"))
+    steps.append({"ev": "add", "paths": ["a"]})
+    steps.append({"ev": "commit", "msg": "two"})
+    steps.append({"ev": "log", "n": 2})
+    save("identity_same", ["C20", "C02", "C12"], steps)
+
+
+def staged_rename():
+    """a rename staged by hand (same bytes under a new name at the same sorted position), then reset"""
+    steps = head()
+    steps.append(w("notes.txt", "notes\n"))
+    steps.append(w("zeta.txt", "zeta\n"))
+    steps.append({"ev": "add", "paths": ["."]})
+    steps.append({"ev": "commit", "msg": "base"})
+    steps.append({"ev": "remove", "p": "notes.txt"})
+    steps.append(w("plans.txt", "notes\n"))
+    steps.append({"ev": "add", "paths": ["plans.txt", "notes.txt"]})
+    steps.append({"ev": "lsfiles"})
+    steps.append({"ev": "status"})
+    steps.append({"ev": "reset", "mode": "mixed", "arg": esc("HEAD@{0}")})
+    steps.append({"ev": "lsfiles"})
+    steps.append({"ev": "add", "paths": ["plans.txt", "notes.txt"]})
+    steps.append({"ev": "reset", "mode": "hard", "arg": esc("HEAD@{0}")})
+    steps.append({"ev": "lsfiles"})
+    steps.append({"ev": "status"})
+    save("staged_rename", ["C08", "C05", "C04"], steps)
+
+
+def twin_dirs():
+    """directories with the same blobs under the same and under different names, equal contents inside and outside a directory,
+    a twin directory followed by a regular file; the untracked file that makes two counts equal"""
+    steps = head()
+    for p_, d in (("pkg/alpha/LICENSE", "MIT\n"), ("pkg/beta/COPYING", "MIT\n"), ("pkg/a/marker.txt", "m\n"), ("pkg/b/marker.txt", "m\n"),
+                  ("pkg/setup.txt", "setup\n"), ("LICENSE", "MIT\n"), ("lib/LICENSE", "MIT\n"), ("lib/lib.go", "package lib\n"),
+                  ("x/f", "same\n"), ("y/sub/f", "same\n"), ("docs/a.txt", "a\n"), ("docs/b.txt", "b\n"), ("main.go", "package main\n")):
+        steps.append(w(p_, d))
+    steps.append({"ev": "add", "paths": ["."]})
+    steps.append({"ev": "writetree"})
+    steps.append({"ev": "commit", "msg": "twins"})
+    steps.append({"ev": "status"})
+    steps.append({"ev": "commit", "msg": "nothing"})
+    steps.append({"ev": "catfile", "flag": "p", "idref": "tree:0"})
+    steps.append({"ev": "catfile", "flag": "p", "idref": "tree:2"})
+    steps.append({"ev": "catfile", "flag": "p", "idref": "tree:4"})
+    steps.append({"ev": "rm", "paths": ["lib"]})                       # LICENSE outside lib has the same bytes
+    steps.append({"ev": "lsfiles"})
+    steps.append({"ev": "restores", "paths": ["lib"]})
+    steps.append({"ev": "restore", "paths": ["lib"]})
+    steps.append({"ev": "remove", "p": "docs/b.txt"})
+    steps.append(w("docs/notes.txt", "untracked\n"))                  # one tracked file missing, one untracked file present
+    steps.append({"ev": "rm", "paths": ["docs"]})
+    steps.append({"ev": "status"})
+    steps.append({"ev": "commit", "msg": "second"})
+    steps.append({"ev": "reset", "mode": "mixed", "arg": esc("HEAD@{1}")})
+    steps.append({"ev": "lsfiles"})
+    steps.append({"ev": "status"})
+    steps.append({"ev": "rm", "paths": ["pkg/b"]})
+    steps.append({"ev": "restores", "paths": ["pkg/b"]})
+    steps.append({"ev": "lsfiles"})
+    steps.append({"ev": "reset", "mode": "hard", "arg": esc("HEAD@{2}")})
+    steps.append({"ev": "lsfiles"})
+    steps.append({"ev": "status"})
+    save("twin_dirs", ["C03", "C04", "C05", "C06", "C07", "C02", "C09", "C01"], steps)
+
+
+def ignored_dir_becomes_file():
+    steps = head()
+    steps.append(w("build/out.txt", "o\n"))
+    steps.append(w("keep.txt", "k\n"))
+    steps.append({"ev": "add", "paths": ["build", "keep.txt"]})
+    steps.append({"ev": "commit", "msg": "one"})
+    steps.append({"ev": "write", "p": ".goitignore", "data": "build/\n", "old": False})
+    steps.append({"ev": "add", "paths": [".goitignore"]})
+    steps.append({"ev": "commit", "msg": "two"})
+    steps.append({"ev": "status"})
+    steps.append({"ev": "rmdir", "p": "build"})
+    steps.append(w("build", "three\n"))                                # the ignored directory is now a regular file of that name
+    steps.append({"ev": "status"})
+    steps.append({"ev": "add", "paths": ["."]})
+    steps.append({"ev": "lsfiles"})
+    steps.append({"ev": "status"})
+    save("ignored_dir_becomes_file", ["C13", "C17"], steps)
+
+
+def deep_path():
+    """a file forty directories deep: every lookup by path walks that far"""
+    steps = head()
+    deep = "/".join("d%d" % i for i in range(40)) + "/leaf.txt"
+    steps.append(w(deep, "leaf\n"))
+    steps.append(w("top.txt", "top\n"))
+    steps.append({"ev": "add", "paths": ["."]})
+    steps.append({"ev": "commit", "msg": "deep"})
+    steps.append({"ev": "status"})
+    steps.append({"ev": "commit", "msg": "nothing"})
+    steps.append(w(deep, "leaf2\n"))
+    steps.append({"ev": "status"})
+    steps.append({"ev": "add", "paths": ["d0"]})
+    steps.append({"ev": "restores", "paths": [esc(deep)]})
+    steps.append({"ev": "restore", "paths": ["d0/d1"]})
+    steps.append({"ev": "rm", "paths": ["d0"]})
+    steps.append({"ev": "commit", "msg": "gone"})
+    steps.append({"ev": "reset", "mode": "hard", "arg": esc("HEAD@{1}")})
+    steps.append({"ev": "status"})
+    save("deep_path", ["C18", "C07", "C09", "C05", "C13"], steps)
+
+
+def spelled_args():
+    """clean paths under other spellings: ./f, d/./g, d//g"""
+    steps = head()
+    steps.append(w("f", "f1\n"))
+    steps.append(w("sub/g", "g1\n"))
+    steps.append(w("sub/deep/h", "h1\n"))
+    steps.append({"ev": "add", "paths": ["."]})
+    steps.append({"ev": "commit", "msg": "base"})
+    for spelled in (["./f"], ["sub/./g"], ["sub//g"], ["./sub/deep/h", "./f"], ["sub/deep/./h"]):
+        for p_ in ("f", "sub/g", "sub/deep/h"):
+            steps.append(w(p_, "edited " + spelled[0] + "\n"))
+        steps.append({"ev": "restore", "paths": [esc(x) for x in spelled]})
+        steps.append({"ev": "status"})
+        steps.append({"ev": "restore", "paths": ["f", "sub"]})
+    save("spelled_args", ["C09"], steps)
+
+
 if __name__ == "__main__":
     name_lengths()
     big_index()
@@ -572,3 +711,9 @@ if __name__ == "__main__":
     restore_staged_dirs()
     tracked_then_ignored()
     dup_args()
+    identity_same()
+    staged_rename()
+    twin_dirs()
+    ignored_dir_becomes_file()
+    deep_path()
+    spelled_args()
